@@ -7,6 +7,7 @@ import Mochi.Driver.BufPool
 import Mochi.Driver.WsConn
 import Mochi.Driver.Codec
 import Mochi.Driver.Broker
+import Mochi.Driver.BrokerSpec
 open Mochi.Driver
 
 structure DState where
@@ -39,7 +40,7 @@ def answer (st : DState) (line : String) : DState × String :=
           match bufpoolOp st.bufpool impl ws with
           | some (b', r) => ({ st with bufpool := b' }, fmt r)
           | none =>
-            match brokerOp st.broker impl ws with
+            match brokerOpV st.broker impl ws with
             | some (k', r) => ({ st with broker := k' }, fmt r)
             | none => (st, "bad-op")
 
